@@ -85,6 +85,10 @@ func randomWorkload(en *Env, cfg h.Cfg, nkeys int, o genOpts, reopenCfg func() h
 			if !e.Dead {
 				e.Commit()
 			}
+			// an ordinary caller writes an earlier value again, from the slice it used before
+			if !e.Dead && len(recent) > 0 && r.Intn(2) == 0 {
+				e.Put(1+r.Intn(nkeys), recent[r.Intn(len(recent))])
+			}
 		case c < 83:
 			e.Sync()
 		case c < 88 && o.merges:
